@@ -192,6 +192,28 @@ impl<'a, D: Dataset + ?Sized> ExecState<'a, D> {
         Ok(Bindings { variables, iter })
     }
 
+    /// Fail with the error of any `EXISTS` pattern of `expr` that this engine can not evaluate
+    /// (`ArcExpression::eval` could only treat it as a pattern without solution).
+    fn check_exists(&mut self, expr: &Expression) -> Result<(), SparqlWrapperError<D::Error>> {
+        use Expression::*;
+        match expr {
+            Exists(pattern) => self.select(pattern, &[], None).map(|_| ()),
+            NamedNode(_) | Literal(_) | Variable(_) | Bound(_) => Ok(()),
+            UnaryPlus(e) | UnaryMinus(e) | Not(e) => self.check_exists(e),
+            Or(a, b) | And(a, b) | Equal(a, b) | SameTerm(a, b) | Greater(a, b)
+            | GreaterOrEqual(a, b) | Less(a, b) | LessOrEqual(a, b) | Add(a, b)
+            | Subtract(a, b) | Multiply(a, b) | Divide(a, b) => {
+                self.check_exists(a)?;
+                self.check_exists(b)
+            }
+            If(a, b, c) => [a, b, c].into_iter().try_for_each(|e| self.check_exists(e)),
+            In(a, l) => std::iter::once(&**a)
+                .chain(l)
+                .try_for_each(|e| self.check_exists(e)),
+            Coalesce(l) | FunctionCall(_, l) => l.iter().try_for_each(|e| self.check_exists(e)),
+        }
+    }
+
     fn filter(
         &mut self,
         expression: &Expression,
@@ -199,6 +221,7 @@ impl<'a, D: Dataset + ?Sized> ExecState<'a, D> {
         graph_matcher: &[Option<ArcTerm>],
         binding: Option<&Binding>,
     ) -> Result<Bindings<'a, D>, SparqlWrapperError<D::Error>> {
+        self.check_exists(expression)?;
         let Bindings { variables, iter } = self.select(inner, graph_matcher, binding)?;
         let arc_expr = ArcExpression::from_expr(expression, &mut self.stash);
         // config and graph_matcher will be moved in the closure;
@@ -319,6 +342,7 @@ impl<'a, D: Dataset + ?Sized> ExecState<'a, D> {
         graph_matcher: &[Option<ArcTerm>],
         binding: Option<&Binding>,
     ) -> Result<Bindings<'a, D>, SparqlWrapperError<D::Error>> {
+        self.check_exists(expression)?;
         let variable = self.stash.copy_variable(variable);
         let Bindings {
             mut variables,
@@ -355,6 +379,10 @@ impl<'a, D: Dataset + ?Sized> ExecState<'a, D> {
         graph_matcher: &[Option<ArcTerm>],
         binding: Option<&Binding>,
     ) -> Result<Bindings<'a, D>, SparqlWrapperError<D::Error>> {
+        for oe in expression {
+            let (OrderExpression::Asc(e) | OrderExpression::Desc(e)) = oe;
+            self.check_exists(e)?;
+        }
         let criteria: Vec<_> = expression
             .iter()
             .map(|oe| match oe {
